@@ -16,17 +16,19 @@ def core_shards(pid, tier, seed, ncfg, ncases, nshards=16, **extra):
 
 
 def draw_examples(strategy, n, seed):
+    """n distinct values of a strategy.  Hypothesis always generates the all-minimal value first (the same for every seed), so the
+    LAST n distinct values of a slightly longer run are returned: every shard then works on its own configurations."""
     out = []
     seen = set()
 
     def t(c):
         k = digest(c)
-        if k not in seen and len(out) < n:
+        if k not in seen:
             seen.add(k)
             out.append(c)
         return []
-    hyp_search(t, strategy, seed, n * 3, shrink=False)
-    return out[:n]
+    hyp_search(t, strategy, seed, n * 3 + 3, shrink=False)
+    return out[-n:]
 
 
 def sample_of(cfg, stim, classes, run):
